@@ -46,18 +46,27 @@ type unit struct {
 	ns      string   // Lean namespace below Bkl.Gen
 	imports []string // other units whose functions this one calls
 	funcs   []string // listed functions (order irrelevant)
+	externs map[string]string // functions of the package that are NOT translated: passed as a parameter (name -> Lean type)
 }
 
 var units = []unit{
-	{"Validate", ".", "Lib", nil, []string{"validate", "validateMap", "validateList", "validateString"}},
-	{"Finalize", ".", "Lib", nil, []string{"finalizeOutput", "finalizeMap", "finalizeList", "finalizeString"}},
+	{"Validate", ".", "Lib", nil, []string{"validate", "validateMap", "validateList", "validateString"}, nil},
+	{"Finalize", ".", "Lib", nil, []string{"finalizeOutput", "finalizeMap", "finalizeList", "finalizeString"}, nil},
 	{"Util", ".", "Lib", nil, []string{
 		"popMapValue", "toBool", "getMapBoolValue", "hasMapBoolValue", "popMapBoolValue",
 		"toString", "getMapStringValue", "popMapStringValue", "hasListMapBoolValue", "getListMapStringValue",
-		"toStringList", "deepClone"}},
-	{"Match", ".", "Lib", []string{"Util"}, []string{"match", "matchMap", "matchList", "matchListSingle"}},
-	{"Bklr", "cmd/bklr", "Bklr", nil, []string{"required", "requiredMap", "requiredList"}},
-	{"Bkli", "cmd/bkli", "Bkli", nil, []string{"intersect", "intersectMap", "intersectMapMap", "intersectList", "intersectListList"}},
+		"toStringList", "deepClone"}, nil},
+	{"Match", ".", "Lib", []string{"Util"}, []string{"match", "matchMap", "matchList", "matchListSingle"}, nil},
+	{"Bklr", "cmd/bklr", "Bklr", nil, []string{"required", "requiredMap", "requiredList"}, nil},
+	{"Bkli", "cmd/bkli", "Bkli", nil, []string{"intersect", "intersectMap", "intersectMapMap", "intersectList", "intersectListList"}, nil},
+	// higher-order helpers and their users (function literals that do not assign captured variables)
+	{"Filter", ".", "Lib", []string{"Util"}, []string{"filterMap", "filterList", "popListMapBoolValue", "popListMapStringValue"}, nil},
+	{"Output", ".", "Lib", []string{"Util", "Filter"}, []string{"filterOutput", "filterOutputMap", "filterOutputList"}, nil},
+	// the leaf functions of the $encode transforms (tolist / values / join's string conversion); fmt's %v is Bkl.fmtV
+	{"Encode", ".", "Lib", nil, []string{"process2ToListList", "process2ToListMap", "process2ToListValue", "process2ValuesMap", "toStringListPermissive"}, nil},
+	// bkld: `reproduces` runs bkl's own merge through the public API; it is a parameter here and the model's merge in the theorem
+	{"Bkld", "cmd/bkld", "Bkld", nil, []string{"diff", "replaceable", "diffMap", "diffMapMap", "diffList", "diffListList", "replaceList"},
+		map[string]string{"reproduces": "List Val → List Val → List Val → Bool"}},
 }
 
 type tr struct {
@@ -75,6 +84,10 @@ type tr struct {
 	used    map[string]int
 	tmp     int
 	curFuel bool
+	results []kind            // result kinds of the function (or function literal) being translated
+	externs map[string]string // extern name -> Lean type
+	needExt map[string][]string // listed function -> externs it needs (sorted)
+	pkgErr  string            // the package's one errors.New variable (mapped to Err.other)
 }
 
 type refuse struct{ msg string }
@@ -126,6 +139,7 @@ const (
 	kStrList
 	kRune
 	kRunes // *utf8string.String
+	kFunc  // func(...) (...) over kinds of the fragment
 	kBad
 )
 
@@ -176,8 +190,47 @@ func (t *tr) kindOf(ty types.Type) kind {
 		if s := x.Elem().String(); strings.HasSuffix(s, "utf8string.String") {
 			return kRunes
 		}
+	case *types.Signature:
+		if x.Variadic() || x.Recv() != nil {
+			return kBad
+		}
+		for i := 0; i < x.Params().Len(); i++ {
+			if k := t.kindOf(x.Params().At(i).Type()); k == kBad || k == kFunc {
+				return kBad
+			}
+		}
+		for i := 0; i < x.Results().Len(); i++ {
+			if k := t.kindOf(x.Results().At(i).Type()); k == kBad || k == kFunc {
+				return kBad
+			}
+		}
+		if x.Results().Len() == 0 {
+			return kBad
+		}
+		return kFunc
 	}
 	return kBad
+}
+
+// Lean type of a function value: A → B → G (R1 × R2)
+func (t *tr) funcType(sig *types.Signature) string {
+	out := ""
+	for i := 0; i < sig.Params().Len(); i++ {
+		out += leanType(t.kindOf(sig.Params().At(i).Type())) + " → "
+	}
+	rs := []string{}
+	for i := 0; i < sig.Results().Len(); i++ {
+		rs = append(rs, leanType(t.kindOf(sig.Results().At(i).Type())))
+	}
+	return "(" + out + "G (" + strings.Join(rs, " × ") + "))"
+}
+
+func sigOf(ty types.Type) *types.Signature {
+	if ty == nil {
+		return nil
+	}
+	sig, _ := ty.Underlying().(*types.Signature)
+	return sig
 }
 
 func leanType(k kind) string {
@@ -366,6 +419,11 @@ func (t *tr) exs(es []ast.Expr, wants []kind, k func([]string) string) string {
 }
 
 func (t *tr) sentinel(e ast.Expr) (string, bool) {
+	if id, ok := e.(*ast.Ident); ok && t.pkgErr != "" && id.Name == t.pkgErr {
+		if v, isVar := t.objOf(id).(*types.Var); isVar && v.Parent() == t.pkg.Scope() {
+			return "Err.other", true
+		}
+	}
 	id, ok := e.(*ast.Ident)
 	if ok && strings.HasPrefix(id.Name, "Err") && len(id.Name) > 3 && t.kindE(e) == kErr {
 		if _, isVar := t.objOf(id).(*types.Var); isVar && t.objOf(id).Parent() == t.pkg.Scope() {
@@ -550,9 +608,48 @@ func (t *tr) ex(e ast.Expr, want kind, k func(string) string) string {
 			}
 			return done(terms[0], kinds[0])
 		})
+	case *ast.FuncLit:
+		return k(t.funcLit(x))
 	}
 	t.fail(e, "expression %T is outside the fragment", e)
 	return ""
+}
+
+// a function literal that only READS the variables it captures becomes a Lean lambda
+func (t *tr) funcLit(x *ast.FuncLit) string {
+	sig := sigOf(t.typeOf(x))
+	if sig == nil || t.kindOf(sig) != kFunc {
+		t.fail(x, "function literal with a signature outside the fragment")
+	}
+	if outer := t.loopState(x.Body); len(outer) > 0 {
+		t.fail(x, "function literal assigns the captured variable %s (no value-semantic rendering)", outer[0].Name())
+	}
+	params := ""
+	for _, f := range x.Type.Params.List {
+		for _, id := range f.Names {
+			o := t.objOf(id)
+			params += " (" + t.nameOf(o) + " : " + leanType(t.kindOf(o.Type())) + ")"
+		}
+	}
+	if x.Type.Results != nil {
+		for _, f := range x.Type.Results.List {
+			if len(f.Names) > 0 {
+				t.fail(f, "named results")
+			}
+		}
+	}
+	saved := t.results
+	t.results = nil
+	for i := 0; i < sig.Results().Len(); i++ {
+		t.results = append(t.results, t.kindOf(sig.Results().At(i).Type()))
+	}
+	top := ctx{ret: func(vals []string) string { return "(.ok " + tuple(vals) + ")" }}
+	body := t.stmts(x.Body.List, top, func() string {
+		t.fail(x, "control reaches the end of the function literal")
+		return ""
+	})
+	t.results = saved
+	return "(fun" + params + " =>\n" + body + ")"
 }
 
 // does e contain a call of a listed (hence monadic) function?  Library primitives are total pure terms.
@@ -560,8 +657,13 @@ func (t *tr) hasCall(e ast.Expr) bool {
 	found := false
 	ast.Inspect(e, func(n ast.Node) bool {
 		if c, ok := n.(*ast.CallExpr); ok {
-			if id, ok := c.Fun.(*ast.Ident); ok && t.listed[id.Name] {
-				found = true
+			if id, ok := c.Fun.(*ast.Ident); ok {
+				if t.listed[id.Name] {
+					found = true
+				}
+				if v, isVar := t.objOf(id).(*types.Var); isVar && sigOf(v.Type()) != nil {
+					found = true
+				}
 			}
 		}
 		return true
@@ -600,6 +702,9 @@ func (t *tr) call(c *ast.CallExpr, k func([]string, []kind) string) string {
 			}
 			return t.exs(c.Args, pk, func(args []string) string {
 				callee := name + "'"
+				for _, ex := range t.needExt[name] {
+					callee += " " + ex
+				}
 				if t.fuel[name] {
 					if !t.curFuel {
 						t.fail(c, "internal: fuel-less function calls a fuelled one")
@@ -616,7 +721,45 @@ func (t *tr) call(c *ast.CallExpr, k func([]string, []kind) string) string {
 		}
 	}
 	arg := func(i int, w kind, k2 func(string) string) string { return t.ex(c.Args[i], w, k2) }
+	if id, ok := c.Fun.(*ast.Ident); ok {
+		if v, isVar := t.objOf(id).(*types.Var); isVar && v.Parent() != t.pkg.Scope() {
+			// a call of a function VALUE (parameter or local)
+			if sig := sigOf(v.Type()); sig != nil && t.kindOf(sig) == kFunc {
+				pk, rk := []kind{}, []kind{}
+				for i := 0; i < sig.Params().Len(); i++ {
+					pk = append(pk, t.kindOf(sig.Params().At(i).Type()))
+				}
+				for i := 0; i < sig.Results().Len(); i++ {
+					rk = append(rk, t.kindOf(sig.Results().At(i).Type()))
+				}
+				return t.exs(c.Args, pk, func(args []string) string {
+					rs := make([]string, len(rk))
+					for i := range rs {
+						rs[i] = t.fresh("r")
+					}
+					return t.bindG("("+t.nameOf(v)+" "+strings.Join(args, " ")+")", tuple(rs), func() string { return k(rs, rk) })
+				})
+			}
+		}
+		if _, isExt := t.externs[id.Name]; isExt {
+			if fn, isFn := t.objOf(id).(*types.Func); isFn {
+				sig := fn.Type().(*types.Signature)
+				pk := []kind{}
+				for i := 0; i < sig.Params().Len(); i++ {
+					pk = append(pk, t.kindOf(sig.Params().At(i).Type()))
+				}
+				if sig.Results().Len() != 1 {
+					t.fail(c, "extern with several results")
+				}
+				rk := t.kindOf(sig.Results().At(0).Type())
+				return t.exs(c.Args, pk, func(args []string) string { return one("("+id.Name+" "+strings.Join(args, " ")+")", rk) })
+			}
+		}
+	}
 	switch name {
+	case "slices.Clone":
+		kd := t.kindE(c.Args[0])
+		return arg(0, kd, func(a string) string { return one(a, kd) })
 	case "len":
 		switch t.kindE(c.Args[0]) {
 		case kMap, kList, kStrList:
@@ -679,6 +822,71 @@ func (t *tr) call(c *ast.CallExpr, k func([]string, []kind) string) string {
 		return arg(0, kRune, func(a string) string { return one("(isLowerModel "+a+")", kBool) })
 	case "errors.Is":
 		return arg(0, kErr, func(a string) string { return arg(1, kErr, func(b string) string { return one("("+a+" == "+b+")", kBool) }) })
+	case "fmt.Sprintf":
+		// literal text, %s of a string, %v of any value (the model's fmtV), %d of an int
+		lit, ok := c.Args[0].(*ast.BasicLit)
+		if !ok {
+			t.fail(c, "fmt.Sprintf without a literal format")
+		}
+		f := constant.StringVal(t.info.Types[lit].Value)
+		type piece struct {
+			lit  string
+			verb byte
+		}
+		var pieces []piece
+		cur := ""
+		for i := 0; i < len(f); i++ {
+			if f[i] == '%' && i+1 < len(f) {
+				if f[i+1] == '%' {
+					cur += "%"
+					i++
+					continue
+				}
+				if f[i+1] != 's' && f[i+1] != 'v' && f[i+1] != 'd' {
+					t.fail(c, "fmt.Sprintf verb %%%c is outside the fragment", f[i+1])
+				}
+				pieces = append(pieces, piece{cur, f[i+1]})
+				cur = ""
+				i++
+				continue
+			}
+			cur += string(f[i])
+		}
+		if len(pieces) != len(c.Args)-1 {
+			t.fail(c, "fmt.Sprintf: verbs and arguments do not match")
+		}
+		wants := make([]kind, len(pieces))
+		for i := range pieces {
+			wants[i] = t.kindE(c.Args[1+i])
+			if wants[i] == kBad {
+				t.fail(c, "fmt.Sprintf argument of a type outside the fragment")
+			}
+		}
+		return t.exs(c.Args[1:], wants, func(as []string) string {
+			parts := []string{}
+			for i, pc := range pieces {
+				if pc.lit != "" {
+					parts = append(parts, leanStr(pc.lit))
+				}
+				switch {
+				case wants[i] == kStr && (pc.verb == 's' || pc.verb == 'v'):
+					parts = append(parts, as[i])
+				case wants[i] == kAny && pc.verb == 'v':
+					parts = append(parts, "(fmtV "+as[i]+")")
+				case wants[i] == kInt && (pc.verb == 'd' || pc.verb == 'v'):
+					parts = append(parts, "(toString "+as[i]+")")
+				default:
+					t.fail(c, "fmt.Sprintf: verb %%%c on this type is outside the fragment", pc.verb)
+				}
+			}
+			if cur != "" {
+				parts = append(parts, leanStr(cur))
+			}
+			if len(parts) == 0 {
+				return one("\"\"", kStr)
+			}
+			return one("("+strings.Join(parts, " ++ ")+")", kStr)
+		})
 	case "fmt.Errorf":
 		// the class of the result is the class of the %w argument
 		lit, ok := c.Args[0].(*ast.BasicLit)
@@ -739,6 +947,9 @@ type ctx struct {
 	ret  func(vals []string) string
 	next func() string // `continue` and falling off the end of a loop body
 	brk  func() string
+	// `continue L` for the label of the ENCLOSING range loop, written inside a nested range loop
+	outerLabel string
+	contOuter  func() string
 }
 
 func (t *tr) assignTargets(lhs []ast.Expr, define bool) ([]string, []kind) {
@@ -799,7 +1010,7 @@ func (t *tr) stmts(ss []ast.Stmt, c ctx, k func() string) string {
 		}
 		return "(" + out + rest() + ")"
 	case *ast.ReturnStmt:
-		_, rk := t.sigKinds(t.fn)
+		rk := t.results
 		if len(s.Results) == 1 && len(rk) > 1 {
 			call, ok := s.Results[0].(*ast.CallExpr)
 			if !ok {
@@ -817,9 +1028,17 @@ func (t *tr) stmts(ss []ast.Stmt, c ctx, k func() string) string {
 			t.fail(s, "bare return is outside the fragment")
 		}
 		return t.exs(s.Results, rk, func(ts []string) string { return c.ret(ts) })
+	case *ast.LabeledStmt:
+		if r, ok := s.Stmt.(*ast.RangeStmt); ok {
+			return t.rangeLoopL(r, s.Label.Name, c, rest)
+		}
+		t.fail(s, "label on a statement other than a range loop")
 	case *ast.BranchStmt:
 		if s.Label != nil {
-			t.fail(s, "labelled branch")
+			if s.Tok == token.CONTINUE && c.contOuter != nil && c.outerLabel == s.Label.Name {
+				return c.contOuter()
+			}
+			t.fail(s, "labelled branch outside the fragment (only `continue L` from a loop nested directly in loop L)")
 		}
 		if s.Tok == token.CONTINUE && c.next != nil {
 			return c.next()
@@ -1154,6 +1373,22 @@ func (t *tr) loopState(body *ast.BlockStmt) []types.Object {
 }
 
 func (t *tr) rangeLoop(s *ast.RangeStmt, c ctx, rest func() string) string {
+	return t.rangeLoopL(s, "", c, rest)
+}
+
+// does the body contain `continue label`?
+func usesLabel(body *ast.BlockStmt, label string) bool {
+	found := false
+	ast.Inspect(body, func(n ast.Node) bool {
+		if b, ok := n.(*ast.BranchStmt); ok && b.Label != nil && b.Label.Name == label {
+			found = true
+		}
+		return true
+	})
+	return found
+}
+
+func (t *tr) rangeLoopL(s *ast.RangeStmt, label string, c ctx, rest func() string) string {
 	if s.Tok != token.DEFINE && s.Key != nil {
 		t.fail(s, "range assigning to existing variables")
 	}
@@ -1200,15 +1435,40 @@ func (t *tr) rangeLoop(s *ast.RangeStmt, c ctx, rest func() string) string {
 	if len(sn) > 0 {
 		st = tuple(sn)
 	}
+	// a loop nested directly in a labelled loop whose body says `continue <that label>`: its early exits are
+	// Go.Exit.ret r (return) and Go.Exit.cont (continue the enclosing loop)
+	exitMode := c.outerLabel != "" && c.next != nil && usesLabel(s.Body, c.outerLabel)
+	if exitMode && len(sn) > 0 {
+		t.fail(s, "a loop that continues an outer loop while carrying state of its own")
+	}
 	return t.ex(coll, ck, func(xs string) string {
 		inner := ctx{
 			ret:  func(vals []string) string { return "(.ok (Go.Loop.ret " + tuple(vals) + "))" },
 			next: func() string { return "(.ok (Go.Loop.next " + st + "))" },
 			brk:  func() string { return "(.ok (Go.Loop.brk " + st + "))" },
 		}
+		if label != "" {
+			inner.outerLabel = label
+		}
+		if exitMode {
+			inner.ret = func(vals []string) string { return "(.ok (Go.Loop.ret (Go.Exit.ret " + tuple(vals) + ")))" }
+			inner.outerLabel = c.outerLabel
+			inner.contOuter = func() string { return "(.ok (Go.Loop.ret Go.Exit.cont))" }
+			body := t.stmts(s.Body.List, inner, inner.next)
+			r := t.fresh("r")
+			rs := make([]string, len(t.results))
+			for i := range rs {
+				rs[i] = r + "_" + fmt.Sprint(i)
+			}
+			return "(match Go.forRange (ρ := Go.Exit " + t.resultType() + ") " + fmt.Sprintf(iter, xs) + " " + st + " (fun " + pat + " " + st + " =>\n" + body + ") with\n" +
+				" | .error e__ => .error e__\n" +
+				" | .ok (.inr (Go.Exit.ret " + tuple(rs) + ")) => " + c.ret(rs) + "\n" +
+				" | .ok (.inr Go.Exit.cont) => " + c.next() + "\n" +
+				" | .ok (.inl " + st + ") =>\n" + rest() + ")"
+		}
 		body := t.stmts(s.Body.List, inner, inner.next)
 		r := t.fresh("r")
-		_, rk := t.sigKinds(t.fn)
+		rk := t.results
 		rs := make([]string, len(rk))
 		for i := range rs {
 			rs[i] = r + "_" + fmt.Sprint(i)
@@ -1263,15 +1523,62 @@ func (t *tr) checkMutation(id *ast.Ident, at ast.Stmt) {
 		if r, ok := n.(*ast.RangeStmt); ok && r.Pos() <= at.Pos() && at.End() <= r.End() && !(r.Pos() <= lastAssign.Pos() && lastAssign.End() <= r.End()) {
 			ast.Inspect(r.Body, func(m ast.Node) bool {
 				if a, ok := m.(*ast.AssignStmt); ok {
-					for _, l := range a.Lhs {
+					for i, l := range a.Lhs {
 						if lid, ok := l.(*ast.Ident); ok && t.objOf(lid) == o {
-							t.fail(a, "%s is re-assigned inside a loop that also mutates it", id.Name)
+							if len(a.Rhs) != len(a.Lhs) || !fresh(a.Rhs[i]) {
+								t.fail(a, "%s is re-assigned (not to a fresh container) inside a loop that also mutates it", id.Name)
+							}
 						}
 					}
 				}
 				return true
 			})
 		}
+		return true
+	})
+	// inside a loop that does not contain the fresh assignment, the variable must not escape anywhere in the loop body
+	// (the next iteration mutates it again), except in a `return`
+	ast.Inspect(t.fn.Body, func(n ast.Node) bool {
+		r, ok := n.(*ast.RangeStmt)
+		if !ok || !(r.Pos() <= at.Pos() && at.End() <= r.End()) || (r.Pos() <= lastAssign.Pos() && lastAssign.End() <= r.End()) {
+			return true
+		}
+		var stack []ast.Node
+		ast.Inspect(r.Body, func(m ast.Node) bool {
+			if m == nil {
+				stack = stack[:len(stack)-1]
+				return true
+			}
+			if uid, ok := m.(*ast.Ident); ok && t.info.Uses[uid] == o && len(stack) > 0 {
+				inReturn := false
+				for _, a := range stack {
+					if _, isRet := a.(*ast.ReturnStmt); isRet {
+						inReturn = true
+					}
+				}
+				okUse := inReturn
+				switch px := stack[len(stack)-1].(type) {
+				case *ast.IndexExpr:
+					okUse = okUse || px.X == uid
+				case *ast.CallExpr:
+					cn := callName(px)
+					okUse = okUse || ((cn == "len" || cn == "delete" || cn == "append") && len(px.Args) > 0 && px.Args[0] == uid)
+				case *ast.RangeStmt:
+					okUse = okUse || px.X == uid
+				case *ast.AssignStmt:
+					for _, l := range px.Lhs {
+						if l == ast.Expr(uid) {
+							okUse = true
+						}
+					}
+				}
+				if !okUse {
+					t.fail(uid, "%s is used as a value inside a loop that also mutates it (it may be aliased)", id.Name)
+				}
+			}
+			stack = append(stack, m)
+			return true
+		})
 		return true
 	})
 	// escapes between the fresh assignment and this mutation
@@ -1284,14 +1591,19 @@ func (t *tr) checkMutation(id *ast.Ident, at ast.Stmt) {
 		if uid, ok := n.(*ast.Ident); ok && t.info.Uses[uid] == o && uid.Pos() > lastAssign.End() && uid.Pos() < at.Pos() {
 			p := parents[len(parents)-1]
 			okUse := false
+			for _, a := range parents {
+				if _, isRet := a.(*ast.ReturnStmt); isRet {
+					okUse = true // the function ends there: no later mutation can be seen through the returned value
+				}
+			}
 			switch px := p.(type) {
 			case *ast.IndexExpr:
-				okUse = px.X == uid
+				okUse = okUse || px.X == uid
 			case *ast.CallExpr:
 				cn := callName(px)
-				okUse = (cn == "len" || cn == "delete") && len(px.Args) > 0 && px.Args[0] == uid
+				okUse = okUse || ((cn == "len" || cn == "delete") && len(px.Args) > 0 && px.Args[0] == uid)
 			case *ast.RangeStmt:
-				okUse = px.X == uid
+				okUse = okUse || px.X == uid
 			}
 			if !okUse {
 				t.fail(uid, "%s is used as a value before its last mutation (it may be aliased)", id.Name)
@@ -1320,14 +1632,24 @@ func (t *tr) function(name string) (text string, err error) {
 		t.fail(fd, "methods and generic functions are outside the fragment")
 	}
 	pk, rk := t.sigKinds(fd)
+	t.results = rk
 	params := ""
+	for _, ex := range t.needExt[name] {
+		params += " (" + ex + " : " + t.externs[ex] + ")"
+	}
+	extParams := params
+	params = ""
 	i := 0
 	for _, f := range fd.Type.Params.List {
 		for _, id := range f.Names {
 			if pk[i] == kBad {
 				t.fail(f, "parameter type outside the fragment")
 			}
-			params += " (" + t.nameOf(t.objOf(id)) + " : " + leanType(pk[i]) + ")"
+			if pk[i] == kFunc {
+				params += " (" + t.nameOf(t.objOf(id)) + " : " + t.funcType(sigOf(t.objOf(id).Type())) + ")"
+			} else {
+				params += " (" + t.nameOf(t.objOf(id)) + " : " + leanType(pk[i]) + ")"
+			}
 			i++
 		}
 	}
@@ -1340,7 +1662,7 @@ func (t *tr) function(name string) (text string, err error) {
 	}
 	rts := make([]string, len(rk))
 	for i, r := range rk {
-		if r == kBad {
+		if r == kBad || r == kFunc {
 			t.fail(fd, "result type outside the fragment")
 		}
 		rts[i] = strings.Trim(leanType(r), "()")
@@ -1360,13 +1682,13 @@ func (t *tr) function(name string) (text string, err error) {
 	p := t.fset.Position(fd.Pos())
 	doc := fmt.Sprintf("/-- %s:%s -/\n", filepath.Base(p.Filename), name)
 	if t.fuel[name] {
-		return doc + "def " + name + "' (fuel__ : Nat)" + params + " : G (" + rt + ") :=\n  match fuel__ with\n  | 0 => .error GErr.fuel\n  | fuel+1 =>\n" + indent(body), nil
+		return doc + "def " + name + "'" + extParams + " (fuel__ : Nat)" + params + " : G (" + rt + ") :=\n  match fuel__ with\n  | 0 => .error GErr.fuel\n  | fuel+1 =>\n" + indent(body), nil
 	}
-	return doc + "def " + name + "'" + params + " : G (" + rt + ") :=\n" + indent(body), nil
+	return doc + "def " + name + "'" + extParams + params + " : G (" + rt + ") :=\n" + indent(body), nil
 }
 
 func (t *tr) resultType() string {
-	_, rk := t.sigKinds(t.fn)
+	rk := t.results
 	rts := make([]string, len(rk))
 	for i, r := range rk {
 		rts[i] = leanType(r)
@@ -1550,6 +1872,64 @@ func main() {
 			}
 		}
 		fuelOf[u.name] = t.fuel
+		// externs: every listed function that reaches one takes it as a leading parameter
+		t.externs = u.externs
+		t.needExt = map[string][]string{}
+		direct := map[string]map[string]bool{}
+		for n := range t.own {
+			direct[n] = map[string]bool{}
+			ast.Inspect(t.decls[n].Body, func(x ast.Node) bool {
+				if c, ok := x.(*ast.CallExpr); ok {
+					if id, ok := c.Fun.(*ast.Ident); ok {
+						if _, isExt := u.externs[id.Name]; isExt {
+							direct[n][id.Name] = true
+						}
+					}
+				}
+				return true
+			})
+		}
+		for changed := true; changed; {
+			changed = false
+			for n := range t.own {
+				for _, w := range calls[n] {
+					for e := range direct[w] {
+						if !direct[n][e] {
+							direct[n][e] = true
+							changed = true
+						}
+					}
+				}
+			}
+		}
+		for n, es := range direct {
+			for e := range es {
+				t.needExt[n] = append(t.needExt[n], e)
+			}
+			sort.Strings(t.needExt[n])
+		}
+		// the package's errors.New variable (at most one): its class is Err.other
+		for _, f := range files {
+			for _, d := range f.Decls {
+				gd, ok := d.(*ast.GenDecl)
+				if !ok || gd.Tok != token.VAR {
+					continue
+				}
+				for _, sp := range gd.Specs {
+					vs := sp.(*ast.ValueSpec)
+					for i, id := range vs.Names {
+						if i < len(vs.Values) {
+							if c, ok := vs.Values[i].(*ast.CallExpr); ok && callName(c) == "errors.New" {
+								if t.pkgErr != "" {
+									problems = append(problems, u.dir+": two errors.New variables (both would be Err.other)")
+								}
+								t.pkgErr = id.Name
+							}
+						}
+					}
+				}
+			}
+		}
 		out.WriteString("namespace " + u.ns + "\n\n")
 		for _, comp := range comps {
 			if !t.own[comp[0]] {
